@@ -137,6 +137,32 @@ def counter_classes(prog):
         cls = "first" if used and used <= {0, 1} else "second" if used and used <= {2, 3} else "match" if not used else "mixed"
         out.setdefault(t.d["field"], set()).add(cls)
         site_ = site(prog, u, t.d["field"])
+    # counters updated inside helpers: &stat->f handed to a helper together with row parameters, or stat itself
+    from ..effects import Effects
+    E = Effects(prog)
+    for c in P.body.calls():
+        if not c.callee or c.callee not in prog.functions:
+            continue
+        used = set()
+        for a in c.args:
+            for r in a.find("DeclRefExpr"):
+                if r.d["did"] in pidx and pidx[r.d["did"]] < 4:
+                    used.add(pidx[r.d["did"]])
+        cls = "first" if used and used <= {0, 1} else "second" if used and used <= {2, 3} else "match" if not used else "mixed"
+        for i, a in enumerate(c.args):
+            a0 = a.strip(casts=True)
+            if a0.k == "UnaryOperator" and a0.d["op"] == "&" and a0.kids[0].strip().k == "MemberExpr" and \
+                    a0.kids[0].strip().d.get("rec") == "cmp_stats":
+                S = E.of_param(c.callee, i)
+                if () in S.pwrites:
+                    out.setdefault(a0.kids[0].strip().d["field"], set()).add(cls)
+            elif a0.k == "DeclRefExpr" and a0.ty.replace(" ", "") == "structcmp_stats*":
+                S = E.of_param(c.callee, i)
+                for p_ in S.writes:
+                    if len(p_) == 1:
+                        out.setdefault(p_[0], set()).add(cls)
+    if not out:
+        raise AnalysisBroken("R17b: no update of a cmp_stats counter found in compare_pair or the helpers it calls")
     return out
 
 
@@ -205,6 +231,13 @@ def r17b(ck, prog):
     # counters start at zero
     zero = {a.kids[0].strip().d["field"] for a in K.body.find("BinaryOperator") if a.d["op"] == "=" and
             a.kids[0].strip().k == "MemberExpr" and a.kids[0].strip().d.get("rec") == "cmp_stats" and const_value(a.kids[1]) == 0}
+    if not (first | second | match) <= zero:
+        # zeroing delegated to a helper that receives the stats object
+        for c in K.body.calls():
+            H = prog.functions.get(c.callee) if c.callee else None
+            if H is not None and any(a.strip(casts=True).ty.replace(" ", "") == "structcmp_stats*" for a in c.args):
+                zero |= {a.kids[0].strip().d["field"] for a in H.body.find("BinaryOperator") if a.d["op"] == "=" and
+                         a.kids[0].strip().k == "MemberExpr" and a.kids[0].strip().d.get("rec") == "cmp_stats" and const_value(a.kids[1]) == 0}
     if not (first | second | match) <= zero:
         ck.violation("R17b", "R17b/kalign_msa_compare/zero", site(prog, K),
                      "counters %s are not zeroed before counting" % sorted((first | second | match) - zero), prog.config)
